@@ -11,7 +11,6 @@ import (
 	"io"
 	"net"
 	"net/http"
-	"os"
 	"strings"
 	"sync/atomic"
 	"time"
@@ -31,9 +30,10 @@ const (
 	srcLimited4    = "127.0.1.1" // loopback, outside 127.0.0.0/24
 	srcLimited6    = "::1"
 
-	firstWait = 3 * time.Second
-	retryWait = 6 * time.Second
-	dialWait  = 5 * time.Second
+	firstWait    = 3 * time.Second
+	retryWait    = 8 * time.Second
+	optionalWait = 400 * time.Millisecond
+	dialWait     = 5 * time.Second
 )
 
 var msgID atomic.Uint32
@@ -93,14 +93,15 @@ type exchanger func(qs []query, wait time.Duration) (answered []bool, rcodes []i
 // may legitimately overflow a socket buffer; a query that is never answered is
 // what matters).  To bound the cost of a totally silent server the retries stop
 // after the first query that stays unanswered.
-func runGroup(g *groupResult, ex exchanger, qs []query) {
+func runGroup(g *groupResult, ex exchanger, qs []query, hopeless func() bool) {
 	g.Sent = len(qs)
 	t0 := time.Now()
 	defer func() { g.MS = time.Since(t0).Milliseconds() }()
-	answered, rcodes, err := ex(qs, firstWait)
-	if os.Getenv("C20_TRACE") != "" {
-		fmt.Printf("TRACE %s/%s first exchange done after %v: %v err=%v\n", g.Group, g.Client, time.Since(t0), answered, err)
+	wait := firstWait
+	if g.Require != "all" {
+		wait = optionalWait
 	}
+	answered, rcodes, err := ex(qs, wait)
 	if err != nil {
 		g.Err = err.Error()
 	}
@@ -113,8 +114,8 @@ func runGroup(g *groupResult, ex exchanger, qs []query) {
 		if answered[i] {
 			continue
 		}
-		if !gaveUp && g.Require == "all" {
-			for try := 0; try < 2 && !answered[i]; try++ {
+		if !gaveUp && g.Require == "all" && !hopeless() {
+			for try := 0; try < 1 && !answered[i]; try++ {
 				g.Retried++
 				a, rc, rerr := ex(qs[i:i+1], retryWait)
 				if rerr != nil {
@@ -413,22 +414,37 @@ func dnscryptExchanger(dst, provider, publicKeyHex string) exchanger {
 type scriptParams struct {
 	Tag          string // unique per child, part of the names
 	RateTouched  bool   // a rate-limit parameter was mutated: only the first query of a limited client is required
+	ConnTouched  bool   // connection_limit.stop/resume set to 0 or 1: stream transports are not required
+	TimeTouched  bool   // a duration was set to 1ns: a timeout is the configured behaviour, no answer is required
 	DNSCheckOK   bool   // check.kv.type is "cache": the DNS-check name must be answered
 	ProviderName string
 	ProviderPK   string
 }
 
 // runTraffic runs the fixed script against every server of the configuration.
-func runTraffic(servers []liveServer, sp scriptParams) (groups []groupResult, queries int) {
+func runTraffic(servers []liveServer, sp scriptParams, hopeless func() bool) (groups []groupResult, queries int) {
 	name := func(s string) string { return s + "." + sp.Tag + ".c20.example." }
+	failed := false
 	for _, s := range servers {
 		for _, addr := range s.Addrs {
 			is6 := strings.HasPrefix(addr, "[")
 			add := func(group, client, require string, ex exchanger, qs []query) {
+				// The verdict is decided by the first failing group; the rest
+				// of the script is skipped once one has failed.
+				if failed {
+					return
+				}
+				stream := strings.Contains(group, "tcp") || strings.HasPrefix(group, "dot") || group == "doh-get" || group == "doh-post"
+				if sp.TimeTouched || (sp.ConnTouched && stream) {
+					require = "none"
+				}
 				g := groupResult{Group: group, Server: s.Name, Addr: addr, Client: client, Require: require}
-				runGroup(&g, ex, qs)
+				runGroup(&g, ex, qs, hopeless)
 				queries += g.Sent + g.Retried
 				groups = append(groups, g)
+				if !g.ok() || hopeless() {
+					failed = true
+				}
 			}
 			switch s.Proto {
 			case "dns":
